@@ -2,6 +2,7 @@
 // C17 (the list handed out is the caller's own and stable), C20 (sequential reference model, memory bounded and freed).
 #include <algorithm>
 #include <memory>
+#include <new>
 #include <optional>
 #include <string>
 #include <vector>
@@ -36,6 +37,8 @@ enum Kind : int {
   kSeqDestroy,    // obj = worker slot
   kSeqRestart,    // obj = worker slot (exit, join, fresh thread)
   kGuardReassign, // worker: a live guard of this manager is overwritten by move assignment with a guard of a SECOND manager
+  kSeqRecreate,   // sequential histories: all guards destroyed, the manager destroyed and a new one constructed at the same address
+                  // while the worker threads (and their thread IDs) live on
   kKinds
 };
 
@@ -43,13 +46,13 @@ constexpr int kTagCtor = 2, kTagForward = 3, kTagGuard = 4;
 
 enum Probe : int {
   pNodeCreated = 0, pNodeRetired, pWorkerAcrossForwards, pIdReuse, pGuardSeenByForward, pQuiescentForward, pListChecked, pGuardStraddledForward,
-  pRestart, pPinnedAcrossBoundary, pBurst, pUnobservedForward, pGuardReleasedByAssign, pProbes
+  pRestart, pPinnedAcrossBoundary, pBurst, pUnobservedForward, pGuardReleasedByAssign, pManagerRecreated, pProbes
 };
 const char *const kProbeNames[] = {"forward_created_list_node", "forward_retired_list_node", "guard_alive_across_two_or_more_forwards",
                                    "slot_reused_by_new_thread", "live_guard_checked_after_forward", "quiescent_forward_checked",
                                    "protected_list_checked", "guard_creation_overlapped_forward", "worker_exit_and_restart",
                                    "guard_pinned_across_node_boundary", "coordinator_forward_burst", "forward_followed_by_forward_without_observation",
-                                   "guard_released_by_assigning_empty_guard", nullptr};
+                                   "guard_released_by_assigning_empty_guard", "manager_destroyed_and_recreated_in_place", nullptr};
 
 std::string g_prop;
 bool tagged(const char *tags) { return g_prop.empty() || strstr(tags, g_prop.c_str()) != nullptr; }
@@ -607,6 +610,36 @@ void run_sequential(const Program &p)
           S->slot_has_guard[op.obj] = false;
         }
         break;
+      case kSeqRecreate: {
+        for (int s = 1; s <= W; ++s) {
+          if (S->slot_has_guard[s]) {
+            seq_command(s, cDestroy);
+            S->slot_has_guard[s] = false;
+          }
+        }
+        {
+          dsim::Observer ob(1ull << 40);
+          dsim::set_alloc_tag(kTagCtor);
+          EpochManager *m = S->mgr;
+          m->~EpochManager();
+          const size_t left = dsim::heap_live(kTagCtor) + dsim::heap_live(kTagForward);
+          if (left != 1) {  // the block of the manager object itself
+            ORACLE("[C20]", "list-memory-not-freed", " :: %zu block(s) allocated by EpochManager for its lists are still alive after the manager was destroyed (history continues with a new manager)",
+                   left - (left > 0 ? 1 : 0));
+          }
+          new (m) EpochManager{};
+          dsim::set_alloc_tag(0);
+        }
+        epoch = kInitial;
+        dsim::probe(pManagerRecreated);
+        size_t cur;
+        {
+          dsim::Observer ob;
+          cur = S->mgr->GetCurrentEpoch();
+        }
+        if (cur != kInitial) ORACLE("[C16][C20]", "initial-epoch", " :: a new EpochManager reports epoch %zu, documented initial epoch is %zu", cur, kInitial);
+        break;
+      }
       case kSeqRestart:
         if (op.obj >= 1 && op.obj <= W) {
           if (S->slot_has_guard[op.obj]) {
@@ -781,9 +814,11 @@ void generate(Program &prog, dsim::Config &cfg, dsim::Rng &pr, dsim::Rng &cr, in
       } else if (x < 65) {
         o.kind = kSeqCreate;
         o.obj = 1 + static_cast<int>(pr.below(static_cast<uint64_t>(W)));
-      } else if (x < 90) {
+      } else if (x < 86) {
         o.kind = kSeqDestroy;
         o.obj = 1 + static_cast<int>(pr.below(static_cast<uint64_t>(W)));
+      } else if (x < 90) {
+        o.kind = kSeqRecreate;
       } else {
         o.kind = kSeqRestart;
         o.obj = 1 + static_cast<int>(pr.below(static_cast<uint64_t>(W)));
@@ -932,6 +967,7 @@ std::string render(const Program &p)
     for (auto &o : p.threads[0]) {
       switch (o.kind) {
         case kSeqForward: s += "forward x" + std::to_string(o.a) + "; "; break;
+        case kSeqRecreate: s += "destroy manager, new manager at the same address; "; break;
         case kSeqCreate: s += "W" + std::to_string(o.obj) + ".create; "; break;
         case kSeqDestroy: s += "W" + std::to_string(o.obj) + ".destroy; "; break;
         case kSeqRestart: s += "W" + std::to_string(o.obj) + ".exit+restart; "; break;
